@@ -29,7 +29,6 @@ use crate::location::{location_from_span, trim_quoted_scalar_span};
 use crate::options::BudgetReportCallback;
 use crate::tags::SfTag;
 use saphyr_parser::{BufferedInput, Event, Parser, ScalarStyle, ScanError, Span, StrInput};
-use smallvec::SmallVec;
 use std::borrow::Cow;
 use std::cell::RefCell;
 use std::rc::Rc;
@@ -42,18 +41,18 @@ type StreamInput<'a> = BufferedInput<ChunkedChars<StreamBufReader<'a>>>;
 // This is fine for our reader-based mode since we never borrow from the original input string.
 type StreamParser<'a> = Parser<'static, StreamInput<'a>>;
 
-/// This is enough to hold a single scalar that is common  case in YAML anchors.
-const SMALLVECT_INLINE: usize = 8;
-
 /// A frame that records events for an anchored container until its end.
-/// Uses SmallVec to avoid heap allocations for small anchors.
-#[derive(Clone, Debug)]
-struct RecFrame<'a> {
+///
+/// The events themselves live in the shared per-document recording log
+/// ([`LiveEvents::rec_log`]); a frame only remembers where its node starts there, so an
+/// event is stored once no matter how many anchored containers enclose it.
+#[derive(Clone, Copy, Debug)]
+struct RecFrame {
     id: usize,
     /// counts nested container starts/ends
     depth: usize,
-    /// inline up to SMALLVECT_INLINE events; spills to heap beyond
-    buf: SmallVec<[Ev<'a>; SMALLVECT_INLINE]>,
+    /// index in the recording log of this node's first event
+    start: usize,
 }
 
 /// Handle input polymorphism
@@ -89,12 +88,15 @@ pub(crate) struct LiveEvents<'a> {
     look: Option<Ev<'a>>,
     /// For alias replay: a stack of injected buffers; we always read from the top first.
     inject: Vec<InjectFrame>,
-    /// Recorded buffers for anchors (index = anchor_id).
+    /// Recorded nodes of anchors (index = anchor_id) as `start..end` ranges of `rec_log`.
     /// `None` means the id is not recorded (e.g., never anchored or cleared).
     /// Saphyr's parser anchor_id is the sequential counter.
-    anchors: Vec<Option<Box<[Ev<'a>]>>>,
+    anchors: Vec<Option<(usize, usize)>>,
+    /// Per-document log of the events of anchored nodes. Every event is stored once;
+    /// nested anchored nodes are sub-ranges of the enclosing node's range.
+    rec_log: Vec<Ev<'a>>,
     /// Recording frames for currently-open anchored containers.
-    rec_stack: Vec<RecFrame<'a>>,
+    rec_stack: Vec<RecFrame>,
     /// Budget (raw events); independent of alias replay limits below.
     budget: Option<BudgetEnforcer>,
     /// Optional reporter to expose budget usage once parsing completes.
@@ -176,6 +178,7 @@ impl<'a> LiveEvents<'a> {
             look: None,
             inject: Vec::with_capacity(2),
             anchors: Vec::with_capacity(8),
+            rec_log: Vec::new(),
             rec_stack: Vec::with_capacity(2),
             budget: budget.map(|budget| BudgetEnforcer::new(budget, policy)),
 
@@ -222,6 +225,7 @@ impl<'a> LiveEvents<'a> {
             look: None,
             inject: Vec::with_capacity(2),
             anchors: Vec::with_capacity(8),
+            rec_log: Vec::new(),
             rec_stack: Vec::with_capacity(2),
             budget: budget.map(|budget| BudgetEnforcer::new(budget, EnforcingPolicy::AllContent)),
 
@@ -267,11 +271,12 @@ impl<'a> LiveEvents<'a> {
             };
             let anchor_id = frame.anchor_id;
             let idx = &mut frame.idx;
-            let buf = self
+            let (start, end) = self
                 .anchors
                 .get(anchor_id)
-                .and_then(|o| o.as_ref())
+                .and_then(|o| *o)
                 .ok_or_else(|| Error::unknown_anchor().with_location(self.last_location))?;
+            let buf = &self.rec_log[start..end];
 
             if *idx >= buf.len() {
                 // Exhausted: pop and continue (there may be another injected frame beneath).
@@ -356,8 +361,13 @@ impl<'a> LiveEvents<'a> {
                     };
                     self.record(&ev, false, false);
                     if anchor_id != 0 {
+                        // An anchored scalar is a one-event range of the log (already there if
+                        // an enclosing anchored container is being recorded).
+                        if self.rec_stack.is_empty() {
+                            self.rec_log.push(ev.clone());
+                        }
                         self.ensure_anchor_capacity(anchor_id);
-                        self.anchors[anchor_id] = Some(vec![ev.clone()].into_boxed_slice());
+                        self.anchors[anchor_id] = Some((self.rec_log.len() - 1, self.rec_log.len()));
                     }
                     self.last_location = location;
                     self.produced_any_in_doc = true;
@@ -377,12 +387,10 @@ impl<'a> LiveEvents<'a> {
                     // Start recording for this anchor *after* bumping other frames,
                     // and include the start event in the new buffer.
                     if anchor_id != 0 {
-                        let mut buf: SmallVec<[Ev; SMALLVECT_INLINE]> = SmallVec::new();
-                        buf.push(ev.clone());
                         self.rec_stack.push(RecFrame {
                             id: anchor_id,
                             depth: 1,
-                            buf,
+                            start: self.rec_log.len(),
                         });
                     }
 
@@ -415,12 +423,10 @@ impl<'a> LiveEvents<'a> {
                     };
                     self.bump_depth_on_start();
                     if anchor_id != 0 {
-                        let mut buf: SmallVec<[Ev; SMALLVECT_INLINE]> = SmallVec::new();
-                        buf.push(ev.clone());
                         self.rec_stack.push(RecFrame {
                             id: anchor_id,
                             depth: 1,
-                            buf,
+                            start: self.rec_log.len(),
                         });
                     }
                     // Container-balance: count open containers independent of budgets/anchors.
@@ -580,6 +586,7 @@ impl<'a> LiveEvents<'a> {
         // Clear injected replay buffers and recording stack but keep capacity.
         self.inject.clear();
         self.rec_stack.clear();
+        self.rec_log.clear();
 
         // Anchors are per-document. Instead of dropping the whole vec (which frees
         // capacity and may cause re-allocation in the next document), keep the
@@ -629,27 +636,11 @@ impl<'a> LiveEvents<'a> {
     /// - `is_start`: whether this is a container start event.
     /// - `seeded_new_frame`: true **only** when a new frame was just created and already
     ///   seeded with the same start event (i.e., anchored container start).
-    fn record(&mut self, ev: &Ev<'a>, is_start: bool, seeded_new_frame: bool) {
-        if self.rec_stack.is_empty() {
-            return;
-        }
-        if is_start {
-            if seeded_new_frame {
-                let last = self.rec_stack.len() - 1;
-                for (i, fr) in self.rec_stack.iter_mut().enumerate() {
-                    if i != last {
-                        fr.buf.push(ev.clone());
-                    }
-                }
-            } else {
-                for fr in &mut self.rec_stack {
-                    fr.buf.push(ev.clone());
-                }
-            }
-        } else {
-            for fr in &mut self.rec_stack {
-                fr.buf.push(ev.clone());
-            }
+    fn record(&mut self, ev: &Ev<'a>, _is_start: bool, _seeded_new_frame: bool) {
+        // One copy in the shared log serves every open frame (a frame just created for this
+        // very start event begins at the current end of the log, so it includes it).
+        if !self.rec_stack.is_empty() {
+            self.rec_log.push(ev.clone());
         }
     }
 
@@ -682,9 +673,9 @@ impl<'a> LiveEvents<'a> {
                     .ok_or(Error::InternalRecursionStackEmpty {
                         location: Location::UNKNOWN,
                     })?;
-                // Convert SmallVec into Box<[Ev]> and store by anchor_id.
+                // The node is the range of the log recorded since the frame was opened.
                 self.ensure_anchor_capacity(done.id);
-                self.anchors[done.id] = Some(done.buf.into_vec().into_boxed_slice());
+                self.anchors[done.id] = Some((done.start, self.rec_log.len()));
             } else {
                 break;
             }
